@@ -168,7 +168,20 @@ def build(run):
                 if accepted and not want_real_ok:
                     return violated(f"complex mode accepts {cname} of |f|**({e_!r}) although that power is complex valued (at |f| = 3: {3.0 ** ev})",
                                     replay={"exponent": repr(e_), "comparison": cname}, reproduced=True, backend="exec")
-        return proved("exec(finite)", vcs=n, sample=f"{len(exps)} literal exponents: typed real only for real integers; comparisons of complex-valued powers rejected")
+        # infinite and not-a-number exponents: a decision (accepted or rejected with ComplexComparisonError), never an internal error
+        for e_ in (float("inf"), float("-inf"), float("nan")):
+            for cname, mk in (("lt", lambda p_: ufl.conditional(ufl.lt(p_, 1), 1.0, 2.0)), ("max_value", lambda p_: ufl.max_value(p_, 1))):
+                n += 1
+                try:
+                    compute_form_data(mk(abs(f) ** e_) * ufl.conj(v) * ufl.Measure("dx", domain=tri), complex_mode=True)
+                except ComplexComparisonError:
+                    pass
+                except BaseException as ex:  # noqa: BLE001
+                    if isinstance(ex, (KeyboardInterrupt, SystemExit)):
+                        raise
+                    return violated(f"complex-mode preprocessing of {cname} of |f|**({e_!r}) fails with {type(ex).__name__}: {ex} (neither accepted nor rejected as a complex comparison)",
+                                    replay={"exponent": repr(e_), "comparison": cname, "error": f"{type(ex).__name__}: {ex}"}, reproduced=True, backend="exec")
+        return proved("exec(finite)", vcs=n, sample=f"{len(exps)} literal exponents: typed real only for real integers; comparisons of complex-valued powers rejected; non-finite exponents decided")
     run.add("complex-mode/powers-with-literal-exponents", literal_powers, kind="values")
 
     # powers with SYMBOLIC exponents (a coefficient, its real part, its modulus, a constant): the preprocessing must come to a decision -- accept (only when base and
